@@ -34,5 +34,28 @@ def overlapping_closes(tier, rng):
     return cases
 
 
+def close_during_newsession(tier, rng):
+    """`Server.Close`, `Conn.Close` by the application, Shutdown or the peer's disconnect arrive while `Backend.NewSession` is still
+    running (harness event `slowns`): the session it returns is installed on a connection that is already closed — and must still
+    get its one Logout (judge TAG=logoutcount: exactly one Logout per session the backend returned)."""
+    cases = []
+    seg = _C20.seg
+    for lm in (0, 1):
+        hello = b"LHLO x\r\n" if lm else b"EHLO x\r\n"
+        for e in ("close", "connclose", "shutdown", "eof", "close;close", "connclose;close"):
+            for d in (15, 35):
+                for _ in range(1 if tier == "quick" else 4):
+                    ev = ["slowns:60", seg(hello), "pause:%d" % d] + e.split(";") + ["pause:90"]
+                    cases.append("\t".join(["sched", g.cfg_str(dict(lmtp=lm)), "NS=;MAIL=;RCPT=;DATA=;AUTH=;SASL=;HS=", ";".join(ev)]) + "\tTAG=logoutcount")
+    return cases
+
+
+def _proj_lo(case, ans):
+    import re
+    ns = sorted(set(re.findall(r"NS:(\d+):[^;]*:ok", ans)))
+    return ",".join("%s=%d" % (i, len(re.findall(r"LO:%s(?![0-9])" % i, ans))) for i in ns) + ("|HANG" if "HANG" in ans else "")
+
+
 def groups(tier, rng):
-    return _g0(tier, rng) + [_Group("sched/overlapping-closes", overlapping_closes(tier, rng), project=_C20.project, theorems=THEOREMS)]
+    return _g0(tier, rng) + [_Group("sched/overlapping-closes", overlapping_closes(tier, rng), project=_C20.project, theorems=THEOREMS),
+                             _Group("sched/close-during-newsession", close_during_newsession(tier, rng), project=_proj_lo, theorems=THEOREMS)]
